@@ -30,7 +30,6 @@ def run(c):
     c.set("rule", "evaluations = instantiated request shapes sent to the router; distinct = distinct (method, path, body) by hash; "
                   "non-trivial = every shape differs from the valid template at exactly one position")
     c.assume("grammar-aware, single-position mutations of one valid request per route; byte-level fuzzing and multi-position mutations are out of scope")
-    c.assume("positions whose malformed value reaches SQL text that pgmodel's parser cannot classify (expand=<number|array>) are left out (api_common.UNDECIDABLE)")
 
 
 vlib.main(run, PROP, "exploration")
